@@ -417,6 +417,26 @@ pub fn run() {
             json!({"engine":"c16","text":text}),
           );
         }
+        // named arguments, the typed parameter second and a parameter of another type first, the arguments in the
+        // declared and in the other order; positional with the typed parameter in the second place: every argument is
+        // converted to the type of the parameter it is bound to
+        let other = if target.text() == "boolean" { "number" } else { "boolean" };
+        let other_value = if other == "boolean" { "true" } else { "1" };
+        for (form, text) in [
+          ("named-in-declared-order", format!("(function(o: {}, p: {}) [o, p])(o: {}, p: {})", other, target.text(), other_value, vt)),
+          ("named-in-the-other-order", format!("(function(o: {}, p: {}) [o, p])(p: {}, o: {})", other, target.text(), vt, other_value)),
+          ("positional-second-parameter", format!("(function(o: {}, p: {}) [o, p])({}, {})", other, target.text(), other_value, vt)),
+        ] {
+          let via = eval_value(&text);
+          let want = format!("[{}, {}]", other_value, got);
+          if via.to_string() != want {
+            run.violation(
+              &format!("coercion-through-invocation:{}:{}:{}", form, shape(target), crate::rval::class_of_value(v)),
+              &format!("`{}` evaluates to {} but each argument converted to its own parameter's type gives {}", text, via, want),
+              json!({"engine":"c16","text":text}),
+            );
+          }
+        }
       }
     }
   }
